@@ -18,6 +18,7 @@ import (
 	"context"
 	"errors"
 	"fmt"
+	"slices"
 
 	"deps.dev/util/resolve/version"
 )
@@ -149,6 +150,8 @@ func (lc *LocalClient) MatchingVersions(ctx context.Context, vk VersionKey) ([]V
 	if !ok {
 		return nil, fmt.Errorf("version: %v: %w", vk, ErrNotFound)
 	}
-	ms := MatchRequirement(vk, vs)
+	// MatchRequirement may reorder the list it is given; vs is the client's
+	// own storage, which concurrent callers read.
+	ms := MatchRequirement(vk, slices.Clone(vs))
 	return ms, nil
 }
